@@ -438,6 +438,10 @@ impl PartitionSampler {
     /// Partitions the given validators into `num_bins` bins of equal stake.
     /// Partitioning is done by splitting a pseudo-randomly permuted list of nodes.
     /// The permutation is a function of the validator list only, so all nodes agree on it.
+    ///
+    /// # Panics
+    ///
+    /// If the total stake is positive but smaller than `num_bins`, so that some bin has to stay empty.
     pub fn new(validators: Vec<ValidatorInfo>, num_bins: usize) -> Self {
         if num_bins == 0 {
             return Self {
@@ -451,7 +455,10 @@ impl PartitionSampler {
         let mut bin_stakes = vec![Vec::new(); num_bins];
 
         let total_stake: Stake = validators.iter().map(|v| v.stake).sum();
-        let stake_per_bin = total_stake.div_ceil(num_bins as u64);
+        // bins differ by at most one unit of stake: the first `total_stake % num_bins` of them hold one more than
+        // the others (one common size `ceil(total_stake / num_bins)` leaves the last bins short or even empty)
+        let small_bin = total_stake.inner() / num_bins as u64;
+        let num_large_bins = (total_stake.inner() % num_bins as u64) as usize;
         let mut validators_random = validators;
         // NOTE: every node has to derive the same partition from the same validator set,
         // so the permutation is pseudo-random but fixed (not drawn from the thread RNG)
@@ -463,6 +470,11 @@ impl PartitionSampler {
         for v in validators_random {
             let mut stake = v.stake;
             while stake > Stake::new(0) {
+                let stake_per_bin = if current_bin < num_large_bins {
+                    Stake::new(small_bin + 1)
+                } else {
+                    Stake::new(small_bin)
+                };
                 bin_validators[current_bin].push(v.id);
                 let stake_to_take = stake.min(stake_per_bin - current_bin_stake);
                 current_bin_stake += stake_to_take;
